@@ -245,7 +245,7 @@ func c15Client(objs ...*unstructured.Unstructured) *symclient.Client {
 	c := &symclient.Client{}
 	c.ApplyFn = c.ApplyToStore
 	c.Objects = append(c.Objects, &corev1.ConfigMap{ObjectMeta: metav1.ObjectMeta{Namespace: util.GetRolloutNamespace(), Name: LuaConfigMap},
-		Data: map[string]string{"lua.traffic.routing.Widget.demo.verif.io": c15Plugin}})
+		Data: map[string]string{"lua.traffic.routing.Widget.demo.verif.io": c15Plugin, "lua.traffic.routing.Gadget.demo.verif.io": c15MetaPlugin}})
 	for _, o := range objs {
 		c.Objects = append(c.Objects, o)
 	}
@@ -402,3 +402,55 @@ func VerifC03_IstioStepShare() { VerifC15_IstioVirtualServiceSplit() }
 // C15: finalising restores every referenced resource that still exists, whichever other ref is gone (same obligation
 // as C05's).
 func VerifC15_FinaliseRestoresEveryRef() { VerifC05_CustomFinaliseRestoresEveryRef() }
+
+// c15MetaPlugin is a well-behaved plugin of the other common shape: it expresses the step purely in metadata
+// (annotations / labels read by a mesh or gateway controller) and never touches spec.
+const c15MetaPlugin = `
+local data = obj.data
+if not data.labels then data.labels = {} end
+if not data.annotations then data.annotations = {} end
+data.annotations["plugin/canary-service"] = obj.canaryService
+data.annotations["plugin/canary-weight"] = tostring(obj.canaryWeight)
+data.labels["plugin/in-canary"] = "true"
+return data
+`
+
+var c15GadgetRef = v1beta1.ObjectRef{APIVersion: "demo.verif.io/v1", Kind: "Gadget", Name: "g1"}
+
+// VerifC15_MetadataOnlyPluginRestore: a plugin that leaves spec alone is restored like any other — Finalise removes
+// what the steps wrote to labels and annotations, brings back the user's own, and removes the snapshot, so that the
+// next rollout snapshots the object as the user has edited it meanwhile (a snapshot left behind would make that
+// rollout work from, and finally restore, the stale configuration).
+func VerifC15_MetadataOnlyPluginRestore() {
+	orig := c15Widget("g1")
+	orig.Object["kind"] = "Gadget"
+	r := c15Ctl(c15GadgetRef)
+	c := c15Client(orig.DeepCopy())
+	r.Client = c
+	find := func() *unstructured.Unstructured {
+		return c.Find("Unstructured:Gadget", "ns", "g1").(*unstructured.Unstructured)
+	}
+	s1, w1 := c15Traffic("s1")
+	if !c15Ensure(r, s1, "C15.meta.apply") {
+		return
+	}
+	got := find()
+	cw := w1
+	if w1 < 0 {
+		cw = -1
+	}
+	verifrt.Assert(got.GetAnnotations()["plugin/canary-weight"] == fmt.Sprintf("%d", cw) && got.GetLabels()["plugin/in-canary"] == "true", "C15.meta.currentStepWritten")
+	verifrt.Assert(util.DumpJSON(got.Object["spec"]) == util.DumpJSON(orig.Object["spec"]), "C15.meta.specUntouched")
+	_, has := got.GetAnnotations()[OriginalSpecAnnotation]
+	verifrt.Assert(has, "C15.meta.snapshotTaken")
+	modified, err := r.Finalise(context.TODO())
+	verifrt.Assert(err == nil && modified, "C15.meta.restore.modified")
+	final := find()
+	verifrt.Assert(c15SameUserConfig(final, orig), "C15.meta.restore.exact")
+	_, has = final.GetAnnotations()[OriginalSpecAnnotation]
+	verifrt.Assert(!has, "C15.meta.restore.snapshotRemoved")
+	n := len(c.Log)
+	modified, err = r.Finalise(context.TODO())
+	verifrt.Assert(err == nil && !modified && len(c.Log) == n, "C15.meta.restore.idempotent")
+	verifrt.Cover("C15.meta.done")
+}
